@@ -11,4 +11,5 @@ def run(ctx, rep):
     crate = ctx.mir('ws-default')['logos_codegen']
     cg.rule_sites(rep, crate, want=('C09',))
     cg.rule_complexity(rep, crate)
+    cg.cg_controls(rep, ctx, [('M-C09c', cg.rule_complexity)])
     rep.trusted += ['rustc nightly MIR', 'engines/mirfacts', 'regex-syntax Hir construction (what counts as a literal / class)']
